@@ -1,25 +1,63 @@
 /-
-  Words: the word counter (`stringutil.FastWordCounter`: matches of `\S*[\w\x{00C0}-\x{1FFF}]\S*`,
-  i.e. maximal runs of non-space characters that contain a word character) over `List Char`,
-  exact on the characters the generators use (ASCII and Latin-1 letters).
+  Words: the three word counters of `stringutil` and their selection, over `List Char`.
+
+    FastWordCounter    matches of `\S*[\w\x{00C0}-\x{1FFF}]\S*`
+    LetterWordCounter  matches of `\S*[\w\x{00C0}-\x{1FFF}\x{AC00}-\x{D7AF}]\S*`
+    FullWordCounter    the latter plus ceil(0.55 × number of characters in U+3040 … U+A4CF)
+    SelectWordCounter  Full when the sample holds a character in U+3040 … U+A4CF, else Letter when
+                       it holds one in U+AC00 … U+D7AF, else Fast
+
+  A match is a maximal run of non-space characters that contains a word character; `\s` is the
+  ASCII class of Go's regexp: tab, newline, form feed, carriage return, space (not vertical tab).
 -/
 namespace Distill
 
-/-- Go's `\s` in RE2 (ASCII class): tab, newline, vertical tab, form feed, carriage return, space -/
+/-- white space as the title heuristic treats it (kept for `Model/Title`) -/
 def isWS (c : Char) : Bool :=
   c == ' ' || c == '\n' || c == '\t' || c == '\r' || c == '\x0b' || c == '\x0c'
+
+/-- Go's `\s` -/
+def isReWS (c : Char) : Bool :=
+  c == ' ' || c == '\n' || c == '\t' || c == '\r' || c == '\x0c'
 
 /-- `[\w\x{00C0}-\x{1FFF}]` -/
 def isWordChar (c : Char) : Bool :=
   c.isAlphanum || c == '_' || (0xC0 ≤ c.toNat && c.toNat ≤ 0x1FFF)
 
+def isHangul (c : Char) : Bool := 0xAC00 ≤ c.toNat && c.toNat ≤ 0xD7AF
+def isCJK (c : Char) : Bool := 0x3040 ≤ c.toNat && c.toNat ≤ 0xA4CF
+
 /-- scan with state: inside a token? has the token a word character so far? -/
-def countFrom (inTok hasW : Bool) : List Char → Nat
+def countFromW (isW : Char → Bool) (inTok hasW : Bool) : List Char → Nat
   | [] => if inTok && hasW then 1 else 0
   | c :: cs =>
-    if isWS c then (if inTok && hasW then 1 else 0) + countFrom false false cs
-    else countFrom true (hasW || isWordChar c) cs
+    if isReWS c then (if inTok && hasW then 1 else 0) + countFromW isW false false cs
+    else countFromW isW true (hasW || isW c) cs
 
+def countFrom (inTok hasW : Bool) (s : List Char) : Nat := countFromW isWordChar inTok hasW s
+
+/-- `FastWordCounter.Count` -/
 def countWords (s : List Char) : Nat := countFrom false false s
+
+/-- `LetterWordCounter.Count` -/
+def countWordsLetter (s : List Char) : Nat := countFromW (fun c => isWordChar c || isHangul c) false false s
+
+/-- `math.Ceil(float64(n) * 0.55)`, in the same floating-point arithmetic -/
+def ceil055 (n : Nat) : Nat := (Float.ceil (Float.ofNat n * 0.55)).toUInt64.toNat
+
+/-- `FullWordCounter.Count` -/
+def countWordsFull (s : List Char) : Nat := countWordsLetter s + ceil055 (s.filter isCJK).length
+
+inductive Counter where | full | letter | fast
+deriving DecidableEq, Repr
+
+/-- `SelectWordCounter` -/
+def selectCounter (sample : List Char) : Counter :=
+  if sample.any isCJK then .full else if sample.any isHangul then .letter else .fast
+
+def Counter.count : Counter → List Char → Nat
+  | .full => countWordsFull
+  | .letter => countWordsLetter
+  | .fast => countWords
 
 end Distill
